@@ -9,6 +9,7 @@ CONSTANTS
   BoundaryFixed = TRUE
 INVARIANT Inv
 INVARIANT InvRange
+INVARIANT Laws
 VIEW view
 ACTION_CONSTRAINT EmitEdge
 CHECK_DEADLOCK FALSE
